@@ -695,7 +695,9 @@ def evaluate__format_number(self: XPathFunction, context: ta.ContextType = None)
         subpic = subpic[:-1]
 
         exponent = value.as_tuple().exponent
-        if isinstance(exponent, int) and exponent < 0:
+        if not value.is_finite():
+            pass
+        elif isinstance(exponent, int) and exponent < 0:
             value *= 100
         else:
             value = decimal.Decimal(int(value) * 100)
@@ -705,7 +707,9 @@ def evaluate__format_number(self: XPathFunction, context: ta.ContextType = None)
         subpic = subpic[:-1]
 
         exponent = value.as_tuple().exponent
-        if isinstance(exponent, int) and exponent < 0:
+        if not value.is_finite():
+            pass
+        elif isinstance(exponent, int) and exponent < 0:
             value *= 1000
         else:
             value = decimal.Decimal(int(value) * 1000)
